@@ -41,6 +41,12 @@ impl Method for FixedMethod {
             return self.current_suggestion(config);
         }
 
+        // The key didn't compose anything (a Kar which has no vowel form for automatic
+        // vowel forming), so there is no input session and nothing to suggest.
+        if !self.ongoing_input_session() {
+            return Suggestion::empty();
+        }
+
         if config.get_fixed_suggestion() {
             if let Some(character) = keycode_to_char(key) {
                 self.typed.push(character);
